@@ -65,6 +65,9 @@ func c04World(c *runner.Ctx) (*gen.World, string, error) {
 		}
 		w.Segs = append(w.Segs, z3)
 		return w, "zero-survivors", nil
+	case forced == 4: // more than 5600 documents: the stored-block offset table of the persisted file exceeds 128 bytes
+		w, err := gen.GenWorld(r, c.TmpDir, fmt.Sprintf("w%d", c.Idx), gen.WorldOpts{Jumbo: true, JumboN: 5600 + r.Intn(2400)})
+		return w, "jumbo-6k", err
 	case forced == 3:
 		w, err := gen.GenWorld(r, c.TmpDir, fmt.Sprintf("w%d", c.Idx), gen.WorldOpts{Jumbo: true})
 		return w, "jumbo", err
